@@ -303,5 +303,5 @@ func genC02(t *rapid.T) c02Case {
 func init() { register("C02", checkC02) }
 
 func TestC02(t *testing.T) {
-	runProp(t, "C02", checkC02, nil, part[c02Case]{"dns-lists", scale(1500, 15000), genC02})
+	runProp(t, "C02", checkC02, nil, part[c02Case]{"dns-lists", scale(5000, 20000), genC02})
 }
